@@ -97,7 +97,7 @@ func idle(state, block string) bool {
 	if strings.Contains(block, "verif/wk.(*Ctx).Guard") {
 		return true
 	}
-	if strings.Contains(block, "verif/stuck.") {
+	if strings.Contains(block, "verif/stuck.") || strings.Contains(block, "IdleControlLoop") {
 		return true
 	}
 	return false
@@ -178,4 +178,31 @@ func WaitFunc(cond func() bool, progress *int64, watchdog time.Duration) (Verdic
 	v, d := Wait(done, progress, watchdog)
 	close(stop)
 	return v, d
+}
+
+// Quiescent samples the process for the standard window and reports whether no
+// goroutine could move during the whole window (used by the C12 server child to
+// answer the parent's STATE? query).
+func Quiescent(progress *int64) (bool, string) {
+	var last string
+	var lastProg int64 = -1
+	for k := 0; k < needed+1; k++ {
+		canon, movable, dump := snapshot()
+		var prog int64
+		if progress != nil {
+			prog = atomic.LoadInt64(progress)
+		}
+		if movable {
+			return false, dump
+		}
+		if k > 0 && (canon != last || prog != lastProg) {
+			return false, dump
+		}
+		last, lastProg = canon, prog
+		if k == needed {
+			return true, dump
+		}
+		time.Sleep(interval)
+	}
+	return false, ""
 }
